@@ -5,6 +5,7 @@ core/mathx/proba.go *now* equals what the model was written against.
 import GoZero.Extracted.C01
 import GoZero.C01.Model
 import GoZero.C01.Sites
+import GoZero.C01.Prog
 namespace GoZero.C01.Tie
 open GoZero.C01
 open GoZero.Extracted.C01
@@ -407,5 +408,73 @@ theorem tie_breakers :
     ∧ (breakersDoStmts ++ breakersDoCtxStmts ++ breakersDoWithAcceptableStmts ++ breakersDoWithAcceptableCtxStmts
         ++ breakersDoWithFallbackStmts ++ breakersDoWithFallbackCtxStmts ++ breakersDoWithFallbackAcceptableStmts
         ++ breakersDoWithFallbackAcceptableCtxStmts).length = 16 := ⟨rfl, rfl, rfl, rfl, rfl, rfl, rfl, rfl, rfl, rfl, rfl, rfl⟩
+
+/-! ### bucket.go, semantically -/
+
+/-- the four counters of a model bucket as the Go fields (Sum, Success, Failure, Drop) -/
+def fieldsOf (b : Bucket) : Int × Int × Int × Int := ((b.sum : Int), (b.succ : Int), (b.fail : Int), (b.drop : Int))
+
+/-- **`bucket.Add(v)` for every bucket and EVERY code `v`** (not only the three iota codes: anything else counts as
+a success, as in the `default:` clause): the translated switch and field updates of bucket.go equal `Bucket.addCode`. -/
+theorem tie_bucketAddSem (b : Bucket) (v : Int) :
+    bucketAddSem v b.sum b.succ b.fail b.drop = fieldsOf (b.addCode v) := by
+  unfold bucketAddSem bucketFailSem bucketDropSem bucketSucceedSem codeFail codeDrop Bucket.addCode fieldsOf
+  by_cases h1 : v = 1
+  · simp [h1]
+  · by_cases h2 : v = 2
+    · simp [h2]
+    · simp [h1, h2]
+
+/-- the three markers: `Bucket.add m` is `bucket.Add` of the mark's iota code -/
+theorem tie_bucketMarks (b : Bucket) (m : Mark) :
+    bucketAddSem m.code b.sum b.succ b.fail b.drop = fieldsOf (b.add m) := tie_bucketAddSem b m.code
+
+/-- `bucket.Reset()` zeroes all four counters whatever they held (`resetFrom` stores the empty bucket) -/
+theorem tie_bucketResetSem (s a f d : Int) : bucketResetSem s a f d = fieldsOf {} := by
+  simp [bucketResetSem, fieldsOf]
+
+/-! ### typed effect programs: the ORDER of effects, derived from the source and run by `Prog.run`
+
+`progDoReq`, `progAllow`, `progRestHandler` are regenerated from /repo on every run as typed token lists (calls with
+targets and arguments, assignments, `if`/`else`/`defer` blocks, returns).  `Prog.run` executes them with a defer stack
+(deferred bodies run on return, at the end of the body and when the request unwinds).  The theorems say that the
+extracted program computes the model's decision table for ALL inputs — so a marker moved out of the `defer`, a
+`markDrop` after the fallback, a request started before `accept()`, a named result evaluated by the deferred marker,
+`next` served with the unwrapped writer … all break the Tie (and, independently, the harness monitors them). -/
+
+/-- `googleBreaker.doReq`, every verdict x entry point x outcome of the request: the extracted program yields
+`doReqEvents` (rejected: markDrop, then the fallback with the rejection error, else the error itself; admitted: the
+deferred marker is installed BEFORE the request runs, the request runs once, `succ` is set iff `acceptable(err)`,
+the marker fires on return and on unwinding alike, the request's error is returned). -/
+theorem tie_progDoReq (v : Verdict) (e : Entry) (o : Outcome) :
+    Prog.runDoReq progDoReq v e o = some (doReqEvents v e o) := by
+  rcases e with ⟨hf, cu⟩
+  cases v <;> cases hf <;> cases cu <;> cases o <;> decide
+
+/-- `googleBreaker.allow`: rejected → markDrop and `(nil, err)`; admitted → a promise, nothing recorded yet. -/
+theorem tie_progAllow (v : Verdict) : Prog.runAllow progAllow v = some (allowEvents v) := by
+  cases v <;> decide
+
+/-- the decision table of the rest handler over (verdict, does `next` unwind, value of the deferred condition) -/
+def restTable (v : Verdict) (unwinds accept : Bool) : List SEv :=
+  match v with
+  | .reject => [.mark .drop, .returned .http503]
+  | .pass => [.ranReq, .mark (if accept then .succ else .fail), if unwinds then .repanicked else .returned .same]
+
+theorem tie_progRestHandler_table (v : Verdict) (unwinds accept : Bool) :
+    Prog.runRest progRestHandler v unwinds accept = some (restTable v unwinds accept) := by
+  cases v <;> cases unwinds <;> cases accept <;> decide
+
+/-- **`BreakerHandler`'s handler closure, every verdict and every request**: running the extracted program with the
+extracted comparison `cw.Code < http.StatusInternalServerError` applied to the code the next handler wrote yields
+`siteEvents .rest`: rejected → 503 written, `next` not served; admitted → the deferred resolver is installed before
+`next` is served WITH THE WRAPPER, and resolves the promise exactly once — on return and on unwinding. -/
+theorem tie_progRestHandler (v : Verdict) (q : SiteReq) :
+    Prog.runRest progRestHandler v q.panics (restAcceptCond q.code 500) = some (siteEvents .rest v q) := by
+  rw [tie_progRestHandler_table]
+  have hc : restAcceptCond q.code 500 = Site.rest.pred q := by
+    rw [tie_restAcceptCond]; simp [Site.pred]
+  rw [hc]
+  cases v <;> simp [restTable, siteEvents, Site.rejectRet]
 
 end GoZero.C01.Tie
